@@ -119,6 +119,7 @@ MUTANTS = {
         ("patch:own-c14-mutations-accessor",),
         ("patch:own-c14-minor-filter-closure",),
         ("patch:own-c14-major-model-order",),
+        ("patch:own-c14-gene-list-lowercased",),
         ("patch:own-c14-minor-pool-order",),
         ("sort-by-raw-score", "aldy/genotype.py",
          "key=lambda m: (int(1000 * m.score), m._solution_nice()),\n    )\n    log.debug(\"*\" * 80)\n\n    if multiple_warn_level >= 1",
